@@ -398,7 +398,7 @@ pub fn check_completed(c: &SetCase, obs: &mut Obs) -> Result<(), String> {
 pub fn property() -> Property {
     Property {
         id: "C08",
-        rule: "Entry texts as line lists: (a) all required variables shuffled with 0-7 extra lines (repetitions, optional variables), (b) the same with exactly one injected fault - a line without '=' (also the empty line), an unknown / misspelt / blank-padded / lower-case name, a non-integer FILE_SIZE or SIZE_PKG (empty, NaN, 12a, ' 5', 2^63, 1.0 ...), or one required variable removed -, (c) with 2-3 faults, (d) any subset / order / repetition of the 23 variables; integer values incl. +5, -0, 007; final newline present or absent. Enumerated stream: each of the eleven required variables removed in turn (4 layouts) and every pair removed. Oracle: M-summary.parse - Ok iff every line is VAR=value with a known VAR, integer sizes and all eleven required present; then all 23 getters equal the model (first-'=' split, accumulation order, last-wins) and is_completed(); otherwise the error must be one of the causes actually present in the text (ParseLine(that line), ParseVariable(that name), ParseInt, Incomplete(a variable that is missing)) - with a single cause that is exact. Third stream: all 2^11 subsets of required variables set through the API -> is_completed() iff all eleven. Non-trivial = a repeated variable or a rejection cause is present (third stream: at most one required variable missing). Distinct = distinct texts.",
+        rule: "Entry texts as line lists: (a) all required variables shuffled with 0-7 extra lines (repetitions, optional variables), (b) the same with exactly one injected fault - a line without '=' (also the empty line), an unknown / misspelt / blank-padded / lower-case name, a non-integer FILE_SIZE or SIZE_PKG (empty, NaN, 12a, ' 5', 2^63, 1.0 ...), or one required variable removed -, (c) with 2-3 faults, (d) any subset / order / repetition of the 23 variables; integer values incl. +5, -0, 007; final newline present or absent. Enumerated stream: each of the eleven required variables removed in turn (4 layouts) and every pair removed. Oracle: M-summary.parse - Ok iff every line is VAR=value with a known VAR, integer sizes and all eleven required present; then all 23 getters equal the model (first-'=' split, accumulation order, last-wins) and is_completed(); otherwise the error must be one of the causes actually present in the text (ParseLine(that line), ParseVariable(that name), ParseInt, Incomplete(a variable that is missing)) - with a single cause that is exact. Third stream: all 2^11 subsets of required variables set through the API -> is_completed() iff all eleven. Non-trivial = a repeated variable or a rejection cause is present (third stream: at most one required variable missing). Distinct = distinct texts. Generators also draw, at low weight, tokens from the source-literal dictionary (every string / byte / character literal of the library's own source, collected at build time and filtered by this domain's character class) (as variable names); faults also: a random single-edit misspelling of a supported name; non-integers incl. '12=34', '4321=', full-width / Arabic digits, '1_000', U+2212. Stream misspelt: every name at edit distance one (substitution / insertion with A-Z and '_', deletion, transposition, one lower-case letter) from the 23 supported names, 12 212 names, each as an extra line of a complete entry.",
         assumptions: vec![
             "with several causes present any one of them may be reported",
             "integers are [+-]?[0-9]+ within i64",
